@@ -355,6 +355,8 @@ class Evaluator:
                 v = s.registry._variable_durations.get(s.registry_key, s.registry._default_duration)
             elif n == "DynamicDurationStrategy":
                 v = s.duration_call()
+            elif n == "GlobalDecouplingWaitDurationStrategy":   # repetition-code library: half of (readout - microwave), floor 0
+                v = max(0.0, 0.5 * (self.T["READOUT"] - self.T["MICROWAVE"]))
             else:
                 raise TypeError(f"unknown duration strategy {n}")
         self._d[k] = v
@@ -865,8 +867,13 @@ def _check_drawing(lib, stats, fail, say, case, program, fig, ax, cap, ops, comp
         if dev > tol + EPS:
             if stale_in_possible and depends_on_multi(o, multi_memo):
                 cls = "multi-link-memo-from-before-drawing"
+            elif stale_in_possible and is_two_qubit(o) and dev <= 0.5 * abs(d) + EPS and \
+                    any(depends_on_multi(ops[j], multi_memo) for j in tq if j != i):
+                # displaced like a member of an overlap group: the grouping went by the stale start time of another gate
+                cls = "multi-link-memo-from-before-drawing"
             elif in_cluster:
-                cls = "overlapping-two-qubit-gates-displaced-beyond-own-time-slot"
+                # class by mode: with the compact durations (flux = 1) the displacement stays inside the slot
+                cls = "overlapping-two-qubit-gates-displaced-beyond-own-time-slot:" + ("compact" if case["compact"] else "non-compact")
             else:
                 cls = "general"
             fail(f"identifier_to_pivot:x:{fam}:{cls}", "each operation is placed at the horizontal position of its start time "
@@ -1212,14 +1219,15 @@ def cases_for(program, rng, k, gnames, n_reject, full_orders=False):
     maps = label_maps(ids)
     combos = [(g, c, v) for g in gnames for c in (True, False) for v in ("cold", "warm")]
     cases = []
+    off = rng.randrange(len(combos))
     if full_orders:
         # every order once, configuration rotating; then every configuration at least once
         for n, o in enumerate(orders):
-            g, c, v = combos[n % len(combos)]
+            g, c, v = combos[(off + n) % len(combos)]
             cases.append({"G": g, "order": o, "map": maps[n % len(maps)], "compact": c, "variant": v})
         k = max(0, k - len(cases))
     for n in range(k):
-        g, c, v = combos[n % len(combos)] if n < len(combos) else rng.choice(combos)
+        g, c, v = combos[(off + n) % len(combos)] if n < len(combos) else rng.choice(combos)
         cases.append({"G": g, "order": rng.choice(orders), "map": rng.choice(maps), "compact": c, "variant": v})
     for n in range(n_reject):
         base = list(rng.choice(orders) or [])
@@ -1234,15 +1242,15 @@ def make_jobs(tier, seed):
     thorough = tier == "thorough"
     rng = random.Random(seed * 7919 + (1 if thorough else 0))
     gnames = ["file", "A", "B"] if thorough else ["file", "A"]
-    two, three = family_short(rng, 1200 if thorough else 120)
-    rand = [random_program(rng) for _ in range(2500 if thorough else 260)]
+    two, three = family_short(rng, 2000 if thorough else 100)
+    rand = [random_program(rng) for _ in range(4000 if thorough else 200)]
     plan = [  # (family, programs, cases per program, reject cases per program, all channel orders)
-        ("A kinds", family_kinds(), 24 if thorough else 5, 2 if thorough else 1, False),
-        ("B two ops", two, 12 if thorough else 4, 1, thorough),
-        ("B three ops", three, 8 if thorough else 4, 1, False),
-        ("C random", rand, 12 if thorough else 6, 1, False),
-        ("D repeated", family_repeat(), 24 if thorough else 8, 1, False),
-        ("E parallel two-qubit", family_parallel(), 24 if thorough else 12, 1, True),
+        ("A kinds", family_kinds(), 32 if thorough else 3, 2 if thorough else 1, False),
+        ("B two ops", two, 12 if thorough else 3, 1, thorough),
+        ("B three ops", three, 8 if thorough else 3, 1, False),
+        ("C random", rand, 12 if thorough else 5, 1, False),
+        ("D repeated", family_repeat(), 32 if thorough else 4, 1, False),
+        ("E parallel two-qubit", family_parallel(), 32 if thorough else 12, 1, True),
         ("F edge", family_edge(), 12, 1, False),
         ("G library", family_library(thorough), 12 if thorough else 6, 1, False),
     ]
@@ -1298,7 +1306,8 @@ def main(argv=None):
     res.rule = ("build programs (JSON: add-sequences over all operation kinds, relations none/FOLLOWED_BY/JOINED_START/JOINED_END to earlier items, "
                 "sub-circuits with repetition 0..3 and nesting <= 2, apply_modifiers / flatten) x channel orders (all ordered subsets of the occupied "
                 "channels for <= 4 channels, sampled per program) x label maps (none / full / partial with unknown keys) x compact and non-compact x "
-                f"global durations {sorted(GLOBALS)} x memo state before drawing (cold / warm); families: " + "; ".join(summary) +
+                f"global durations {sorted(set(c['G'] for j in jobs for c in j['cases']))} ('file' = repository configuration, A / B = overrides via "
+                f"temporary_override_get_registry_at: {GLOBALS['A']}, {GLOBALS['B']}) x memo state before drawing (cold / warm); families: " + "; ".join(summary) +
                 ". Non-trivial = at least two operations on at least two channels with a relation or a sub-circuit; distinct = distinct (program, configuration).")
     res.samples = total.samples[:6]
     bound = f"{total.cases} drawings of {len(jobs)} programs, tier {args.tier}, seed {args.seed}"
@@ -1331,12 +1340,16 @@ def main(argv=None):
           f"{len(out['failures'])} failure keys, skipped {out['skipped']}, {out['wall_s']} s")
     for f in out["failures"]:
         print("  FAILURE", f["key"])
+    harness = [k for k in out["skipped"] if k.startswith("harness error")]
+    if harness or total.cases == 0:
+        print("HARNESS ERROR:", harness or "no case was evaluated")
+        return 2
     return 0
 
 
 def replay(path):
     rec, a = common.load_replay(path)
-    key = a.get("key") or rec.get("key")
+    key = a.get("key") or rec.get("key") or rec.get("id") or rec.get("obligation")
     program = a["program"]
     case = {"G": a["G"], "order": a["order"], "map": a["map"], "compact": a["compact"], "variant": a["variant"], "reject": a.get("reject", False)}
     print(f"replaying {key}")
